@@ -116,7 +116,8 @@ Lemma one_iteration e1 e2 s d sr i :
     (forall f, run (6 + f) (mvl_prog e1 e2) 4 s = run f (mvl_prog e1 e2) (if i =? 1 then 10%nat else 4%nat) s2) /\
     TW s2 /\ mem_wf s2 /\ getr s2 (gTEMP 3) = wnext d /\ getr s2 (gTEMP 2) = wnext sr /\ getr s2 gI = i - 1 /\
     clear_temps (rg s2) = py_set (clear_temps (rg s)) gI (Z.to_N (i - 1)) /\
-    (forall x, mem s2 x = mem_mv (mem s) d sr x) /\ halted s2 = halted s.
+    (forall x, mem s2 x = mem_mv (mem s) d sr x) /\ halted s2 = halted s /\
+    rlog s2 = sr :: rlog s /\ wlog s2 = d :: wlog s.
 Proof.
   intros HT Hwf G3 G2 Hd Hs GI Hi.
   pose proof (wnext_range d) as Wd. pose proof (wnext_range sr) as Ws. rewrite ims_val in *.
@@ -164,12 +165,15 @@ Proof.
       rewrite (Z.mod_small (i - 1)) by lia. reflexivity. }
     split.
     { intros x. change (mem sD x) with (mem sA x). unfold sA. rewrite store1_mem by apply Hwf. reflexivity. }
-    reflexivity.
+    split; [reflexivity|]. split; reflexivity.
 Qed.
 
 (* ---- any number of iterations ------------------------------------------------------------------- *)
 Fixpoint bm (n : nat) (d sr : Z) (m : Z -> Z) : Z -> Z :=
   match n with O => m | S n' => bm n' (wnext d) (wnext sr) (mem_mv m d sr) end.
+
+(* the cells a run visits, in order *)
+Fixpoint cells (n : nat) (a : Z) : list Z := match n with O => [] | S n' => a :: cells n' (wnext a) end.
 
 Lemma bm_ext n : forall d sr m1 m2, (forall x, m1 x = m2 x) -> forall x, bm n d sr m1 x = bm n d sr m2 x.
 Proof.
@@ -185,23 +189,26 @@ Lemma loop_runs e1 e2 : forall n s d sr,
   getr s gI = Z.of_nat (S n) -> Z.of_nat (S n) < 65536 ->
   exists s', (forall f, run (6 * S n + 1 + f) (mvl_prog e1 e2) 4 s = RDone s') /\
              clear_temps (rg s') = py_set (clear_temps (rg s)) gI 0 /\
-             (forall x, mem s' x = bm (S n) d sr (mem s) x) /\ halted s' = halted s.
+             (forall x, mem s' x = bm (S n) d sr (mem s) x) /\ halted s' = halted s /\
+             rlog s' = rev (cells (S n) sr) ++ rlog s /\ wlog s' = rev (cells (S n) d) ++ wlog s.
 Proof.
   induction n as [|n IH]; intros s d sr HT Hwf G3 G2 Hd Hs GI Hn.
-  - destruct (one_iteration e1 e2 s d sr 1 HT Hwf G3 G2 Hd Hs GI ltac:(lia)) as (s2 & R & _ & _ & _ & _ & _ & C & M & H).
-    exists s2. split; [|split; [exact C|split; [exact M|exact H]]].
+  - destruct (one_iteration e1 e2 s d sr 1 HT Hwf G3 G2 Hd Hs GI ltac:(lia)) as (s2 & R & _ & _ & _ & _ & _ & C & M & H & RL & WL).
+    exists s2. split; [|split; [exact C|split; [exact M|split; [exact H|split; [exact RL|exact WL]]]]].
     intros f. replace (6 * 1 + 1 + f)%nat with (6 + S f)%nat by lia. rewrite R. reflexivity.
   - destruct (one_iteration e1 e2 s d sr (Z.of_nat (S (S n))) HT Hwf G3 G2 Hd Hs GI ltac:(lia))
-      as (s2 & R & T2 & W2 & G3' & G2' & GI' & C & M & H).
+      as (s2 & R & T2 & W2 & G3' & G2' & GI' & C & M & H & RL & WL).
     assert (E : (Z.of_nat (S (S n)) =? 1) = false) by (apply Z.eqb_neq; lia). rewrite E in R.
     destruct (IH s2 (wnext d) (wnext sr) T2 W2 G3' G2' (wnext_range d) (wnext_range sr) ltac:(lia) ltac:(lia))
-      as (s' & R' & C' & M' & H').
-    exists s'. split; [|split; [|split]].
+      as (s' & R' & C' & M' & H' & RL' & WL').
+    exists s'. split; [|split; [|split; [|split; [|split]]]].
     + intros f. replace (6 * S (S n) + 1 + f)%nat with (6 + (6 * S n + 1 + f))%nat by lia. rewrite R. apply R'.
     + rewrite C', C. apply py_set_I_I.
     + intros x. rewrite M'. change (bm (S (S n)) d sr (mem s)) with (bm (S n) (wnext d) (wnext sr) (mem_mv (mem s) d sr)).
       apply bm_ext. exact M.
     + rewrite H'. exact H.
+    + rewrite RL', RL. change (cells (S (S n)) sr) with (sr :: cells (S n) (wnext sr)). cbn [rev]. rewrite <- app_assoc. reflexivity.
+    + rewrite WL', WL. change (cells (S (S n)) d) with (d :: cells (S n) (wnext d)). cbn [rev]. rewrite <- app_assoc. reflexivity.
 Qed.
 
 Lemma imem_cell_range s m n : ims <= fst (imem_cell s m n) < ims + 256.
@@ -217,7 +224,9 @@ Lemma mvl_exec dm sm n1 n2 s :
   exists s', run (fuel_for P s) P 0 s = RDone s' /\
              clear_temps (rg s') = py_set (clear_temps (rg s)) gI 0 /\
              (forall x, mem s' x = bm (Z.to_nat (getr s gI)) (fst (imem_cell s dm n1)) (fst (imem_cell s sm n2)) (mem s) x) /\
-             halted s' = halted s.
+             halted s' = halted s /\
+             rlog s' = rev (snd (imem_cell s dm n1) ++ snd (imem_cell s sm n2) ++ cells (Z.to_nat (getr s gI)) (fst (imem_cell s sm n2))) ++ rlog s /\
+             wlog s' = rev (cells (Z.to_nat (getr s gI)) (fst (imem_cell s dm n1))) ++ wlog s.
 Proof.
   intros HT Hwf Hn1 Hn2 HI P.
   set (d := fst (imem_cell s dm n1)). set (sr := fst (imem_cell s sm n2)).
@@ -252,7 +261,11 @@ Proof.
     2:{ cbn [exec_stmt]. rewrite eval_i_zero, BI, E0. reflexivity. }
     replace (6 * 0 + 2 + j)%nat with (S (S j)) by lia.
     erewrite (run_step P 9 sb _ sb); [| reflexivity | reflexivity].
-    exists sb. split; [reflexivity|]. split; [|split; [intros x; reflexivity|reflexivity]].
+    assert (LB : rlog sb = rev (snd (imem_cell s dm n1) ++ snd (imem_cell s sm n2)) ++ rlog s /\ wlog sb = wlog s).
+    { split; [|reflexivity]. change (rlog sb) with (rev (snd (imem_cell s sm n2)) ++ rev (snd (imem_cell s dm n1)) ++ rlog s).
+      rewrite rev_app_distr, <- app_assoc. reflexivity. }
+    exists sb. split; [reflexivity|]. split; [|split; [intros x; reflexivity|split; [reflexivity|]]].
+    2:{ cbn [cells rev]. rewrite app_nil_r. exact LB. }
     rewrite CB. unfold getr in E0. destruct (rg s) as [ba i x y u sp pc f t]. cbn [py_get y_i] in E0.
     assert (i = 0%N) by lia. subst i. reflexivity.
   - apply Z.eqb_neq in E0.
@@ -262,8 +275,15 @@ Proof.
     replace (6 * S n + 2 + j)%nat with (S (6 * S n + 1 + j)) by lia.
     erewrite (run_step P 3 sb _ sb); [| reflexivity | reflexivity].
     destruct (loop_runs (imem_addr dm n1) (imem_addr sm n2) n sb d sr Tb Wb B3 B2 Rd Rs ltac:(rewrite BI; lia) ltac:(lia))
-      as (s' & R & C & M & H).
-    exists s'. split; [apply R|]. split; [rewrite C, CB; reflexivity|]. split; [exact M|exact H].
+      as (s' & R & C & M & H & RL & WL).
+    assert (LB : rlog sb = rev (snd (imem_cell s dm n1) ++ snd (imem_cell s sm n2)) ++ rlog s /\ wlog sb = wlog s).
+    { split; [|reflexivity]. change (rlog sb) with (rev (snd (imem_cell s sm n2)) ++ rev (snd (imem_cell s dm n1)) ++ rlog s).
+      rewrite rev_app_distr, <- app_assoc. reflexivity. }
+    destruct LB as [LB1 LB2].
+    exists s'. split; [apply R|]. split; [rewrite C, CB; reflexivity|]. split; [exact M|]. split; [exact H|]. split.
+    + rewrite RL, LB1. fold sr. rewrite (app_assoc (snd (imem_cell s dm n1))). rewrite (rev_app_distr _ (cells (S n) sr)).
+      rewrite <- app_assoc. reflexivity.
+    + rewrite WL, LB2. reflexivity.
 Qed.
 
 (* ---- the documented block move, as a function on memory ------------------------------------------ *)
@@ -299,6 +319,13 @@ Proof.
     apply bm_ext. intros y. unfold t'. rewrite store1_mem by apply Hwf. reflexivity.
 Qed.
 
+Lemma cells_run a n : in_imem a = true -> forall k, run_cells a 1 n dec k = cells n (wrap_imem a (stepk a k)).
+Proof.
+  intros Ha. induction n as [|n IH]; intros k; [reflexivity|].
+  cbn [run_cells cells range map app]. change (Z.of_nat 1) with 1. replace (k * 1) with k by lia.
+  change (if dec then a - k else a + k) with (stepk a k). rewrite IH. rewrite wrap_next by exact Ha. reflexivity.
+Qed.
+
 Lemma in_imem_cell s m n : in_imem (fst (imem_cell s m n)) = true.
 Proof. pose proof (imem_cell_range s m n) as H. unfold in_imem. apply andb_true_intro. split; [apply Z.leb_le|apply Z.ltb_lt]; lia. Qed.
 
@@ -315,18 +342,25 @@ Lemma mvl_final dm sm n1 n2 x y s :
   let s1 := setr (setr s gPC x) gPC y in
   exists s', run (fuel_for P s1) P 0 s1 = RDone s' /\
     arch_eqT s' (setr (block_move (N.to_nat (py_get (rg s) gI)) 0 (place_of s (LIMem 1 n1) dm) (place_of s (LIMem 1 n2) sm) dec
-                         (setr s gPC y)) gI 0).
+                         (setr s gPC y)) gI 0) /\
+    (* data accesses, in order: the addressing registers of both operands, then the source run; writes: the destination run *)
+    let n := N.to_nat (py_get (rg s) gI) in
+    rlog s' = rev (snd (imem_cell s dm n1) ++ snd (imem_cell s sm n2) ++ run_cells (fst (imem_cell s sm n2)) 1 n dec 0) ++ rlog s /\
+    wlog s' = rev (run_cells (fst (imem_cell s dm n1)) 1 n dec 0) ++ wlog s.
 Proof.
   intros Hwf HT HI Hn1 Hn2 P s1.
   assert (T1 : TW s1) by (apply TW_setr; apply TW_setr; exact HT).
   assert (W1 : mem_wf s1) by (intros a; apply Hwf).
   assert (I1 : getr s1 gI = Z.of_N (py_get (rg s) gI)).
   { unfold s1. rewrite !getr_setr_pc by discriminate. reflexivity. }
-  destruct (mvl_exec dm sm n1 n2 s1 T1 W1 Hn1 Hn2 ltac:(rewrite I1; lia)) as (s' & R & C & M & H).
+  destruct (mvl_exec dm sm n1 n2 s1 T1 W1 Hn1 Hn2 ltac:(rewrite I1; lia)) as (s' & R & C & M & H & RL & WL).
   exists s'. split; [exact R|].
-  rewrite I1 in M. rewrite <- Z_N_nat, N2Z.id in M.
-  change (imem_cell s1 dm n1) with (imem_cell s dm n1) in M. change (imem_cell s1 sm n2) with (imem_cell s sm n2) in M.
+  rewrite I1 in M, RL, WL. rewrite <- Z_N_nat, N2Z.id in M, RL, WL.
+  change (imem_cell s1 dm n1) with (imem_cell s dm n1) in M, RL, WL. change (imem_cell s1 sm n2) with (imem_cell s sm n2) in M, RL, WL.
+  change (rlog s1) with (rlog s) in RL. change (wlog s1) with (wlog s) in WL.
   pose proof (in_imem_cell s dm n1) as Ia. pose proof (in_imem_cell s sm n2) as Ib.
+  split.
+  2:{ cbv zeta. rewrite !cells_run by assumption. rewrite !wrap_self by assumption. split; [exact RL|exact WL]. }
   cbn [place_of].
   destruct (imem_cell s dm n1) as [a rs1]. destruct (imem_cell s sm n2) as [b rs2]. cbn [fst] in *.
   assert (W2 : mem_wf (setr s gPC y)) by (intros z; apply Hwf).
@@ -356,7 +390,7 @@ Ltac mvl_case dec cls :=
     match p with (SSetReg _ _ (imem_addr ?dm _) :: SSetReg _ _ (imem_addr ?sm _) :: _) =>
       match s1 with setr (setr _ gPC ?x) gPC ?y =>
         let s' := fresh "s'" in let E := fresh "E" in let AE := fresh "AE" in
-        destruct (mvl_final dec dm sm n1 n2 x y s Hwf HT HI H1 H2) as (s' & E & AE); cbv zeta in E;
+        destruct (mvl_final dec dm sm n1 n2 x y s Hwf HT HI H1 H2) as (s' & E & AE & _); cbv zeta in E;
         change p with (mvl_prog dec (imem_addr dm n1) (imem_addr sm n2)); rewrite E;
         eexists; eexists; split; [reflexivity|]; split; [spec_mem cls; cbn [upd_block]; reflexivity|exact AE]
       end
@@ -385,3 +419,50 @@ Lemma mvl_opcode_check :
   (d_cls (entry_of 203), d_ops (entry_of 203)) = (I_MVL, [PIMem 1; PIMem 1]) /\
   (d_cls (entry_of 207), d_ops (entry_of 207)) = (I_MVLD, [PIMem 1; PIMem 1]).
 Proof. split; vm_compute; reflexivity. Qed.
+
+(* ---- C03: the counted run touches exactly the cells the rendered operands denote ------------------- *)
+Definition mvl_access_is_documented (opc : N) : Prop :=
+  forall c, In c pre_choices -> forall n1 n2, (n1 < 256)%N -> (n2 < 256)%N -> forall addr s,
+  mem_wf s -> TW s -> (py_get (rg s) gI < 65536)%N ->
+  exists s' A rl,
+    exec_decoded (mk_pre c opc [OIMem 1 n1; OIMem 1 n2] 3) (first_byte c opc) addr s = XOk s' /\
+    den_access (mk_pre c opc [OIMem 1 n1; OIMem 1 n2] 3) s = Some A /\
+    rlog s' = rev rl ++ rlog s /\ (forall x, In x rl <-> In x (a_reads A)) /\
+    wlog s' = rev (a_writes A) ++ wlog s.
+
+Ltac mvl_access_case dec cls :=
+  let n1 := fresh "n1" in let n2 := fresh "n2" in let H1 := fresh "H1" in let H2 := fresh "H2" in
+  let addr := fresh "addr" in let s := fresh "s" in let Hwf := fresh "Hwf" in let HT := fresh "HT" in let HI := fresh "HI" in
+  intros n1 n2 H1 H2 addr s Hwf HT HI;
+  lift_mem;
+  match goal with |- context [run (fuel_for ?p ?s1) ?p 0 ?s1] =>
+    match p with (SSetReg _ _ (imem_addr ?dm _) :: SSetReg _ _ (imem_addr ?sm _) :: _) =>
+      match s1 with setr (setr _ gPC ?x) gPC ?y =>
+        let s' := fresh "s'" in let E := fresh "E" in let RL := fresh "RL" in let WL := fresh "WL" in
+        destruct (mvl_final dec dm sm n1 n2 x y s Hwf HT HI H1 H2) as (s' & E & _ & RL & WL); cbv zeta in E, RL, WL;
+        change p with (mvl_prog dec (imem_addr dm n1) (imem_addr sm n2)); rewrite E;
+        unfold den_access;
+        match goal with |- context [render_ops ?i] =>
+          let R := fresh "R" in let HR := fresh "HR" in remember (render_ops i) as R eqn:HR; vm_compute in HR; subst R end;
+        cbn [map fst snd nth];
+        match goal with |- context [d_cls (i_ent ?i)] => change (d_cls (i_ent i)) with cls end;
+        cbv iota; cbv beta; cbn [place_of];
+        destruct (imem_cell s dm n1) as [a rs1]; destruct (imem_cell s sm n2) as [b rs2]; cbn [fst snd] in RL, WL;
+        cbn [op_run acc_app a_reads a_writes app]; change (N.to_nat 1) with 1%nat;
+        eexists; eexists; eexists; split; [reflexivity|]; split; [reflexivity|]; split; [exact RL|]; split; [|exact WL];
+        cbn [acc_app a_reads a_writes]; intros z; rewrite !in_app_iff; tauto
+      end
+    end
+  end.
+
+Theorem mvl_access : mvl_access_is_documented 203.
+Proof.
+  intros c Hc. cbn [In pre_choices map] in Hc.
+  repeat (destruct Hc as [<- | Hc]; [mvl_access_case false I_MVL|]). destruct Hc.
+Qed.
+
+Theorem mvld_access : mvl_access_is_documented 207.
+Proof.
+  intros c Hc. cbn [In pre_choices map] in Hc.
+  repeat (destruct Hc as [<- | Hc]; [mvl_access_case true I_MVLD|]). destruct Hc.
+Qed.
